@@ -34,6 +34,9 @@ use std::collections::HashMap;
 mod util;
 use util::*;
 
+#[path = "c28_shadow.rs"]
+pub mod shadow;
+
 // ---------------------------------------------------------------------------
 // generator
 // ---------------------------------------------------------------------------
@@ -853,7 +856,7 @@ impl Check for CteCheck {
         "the engine answered and the statement defines some WITH name in two scopes, or references one CTE definition at least twice"
     }
     fn cases(&self, tier: Tier) -> u32 {
-        tier.pick(2500, 80_000)
+        tier.pick(9000, 120_000)
     }
     fn max_shrink_iters(&self) -> u32 {
         1500
@@ -964,6 +967,6 @@ pub fn property() -> Property {
             "replacing a non-recursive CTE reference by its definition as a derived table does not change the meaning of a statement (no volatile functions, no LIMIT without total order inside CTE bodies)",
             "an engine error is an allowed outcome (the property only forbids wrong rows)",
         ],
-        checks: vec![Box::new(CteCheck)],
+        checks: vec![Box::new(CteCheck), Box::new(shadow::ShadowTemplates)],
     }
 }
